@@ -225,6 +225,28 @@ impl Population {
                 ));
             }
         }
+        // compression levels outside each codec's documented range ("every level": the setter
+        // takes any u32; the very high zstd levels are left out, they cost seconds per file)
+        for (c, lv) in [(2u8, 10u32), (2, 100), (2, u32::MAX), (4, u32::MAX), (4, 1 << 31), (3, 1000), (5, 77), (1, u32::MAX)] {
+            for n in [3usize, 9] {
+                fixed.push(FileSpec::new(FileCfg::layout(Some(1024), Some(2), 1).with_codec(c, lv), EntrySpec::Uniform { n, klen: 300, vlen: 200, wide: false }));
+            }
+        }
+        // bytes the other families never use: keys made of 0xFF / 0x00 that are prefixes of each
+        // other, values that are all 0xFF, all 0x00, or 0xFB..0xFF cycles
+        {
+            let h = vlib::report::hex;
+            let vals: [Vec<u8>; 4] = [vec![0xFF; 300], vec![0x00; 300], (0..700).map(|i| 0xFB + (i % 5) as u8).collect(), vec![0xFF]];
+            let keys: [Vec<u8>; 7] = [vec![0x00], vec![0x00, 0x00], vec![0x00, 0xFF], vec![0xFF], vec![0xFF, 0x00], vec![0xFF, 0xFF], vec![0xFF; 600]];
+            let e: Vec<(String, String)> = keys.iter().enumerate().map(|(i, k)| (h(k), h(&vals[i % 4]))).collect();
+            for (c, lv) in [(0u8, 0u32), (5, 0), (3, 0)] {
+                for l in [0u8, 2] {
+                    for iv in [Some(1), None] {
+                        fixed.push(FileSpec::new(FileCfg::layout(Some(1024), iv, l).with_codec(c, lv), EntrySpec::Explicit(e.clone())));
+                    }
+                }
+            }
+        }
         let mut ends = Vec::new();
         let mut t = 0;
         for g in &groups {
